@@ -40,7 +40,7 @@ META = dict(
     stubs=c04.META['stubs'],
     assumptions=['index file = lead-ins and metadata of the data file with TDSh tags (independent encoder)'],
     buckets=dict(all=['with-index-read', 'with-index-window', 'index-only', 'index-only-refuses-data', 'no-metadata-segment',
-                      'padded-no-metadata-segment', 'incomplete-last-segment', 'writer-index']),
+                      'padded-no-metadata-segment', 'incomplete-last-segment', 'writer-index', 'cut-data-file-with-full-index']),
     replays_per_signature=3,
     validate_samples=8,
 )
@@ -82,10 +82,22 @@ def family(tier):
     return out
 
 
+def cut_family(tier):
+    base = [A, 'full', 3, 2, [['p', 3, 1]]]
+    fam = [[s1.seg([base, [B, 'full', 2, 1]], 2), s1.seg([[A, 'full', 3, 1, [['p', 3, 2]]], ["/'h'/'late'", 'full', 4, 1, [['q', 0x20, 'x']]]], 1)],
+           [s1.seg([base], 1), s1.seg([], 2, meta=False, pad=4), s1.seg([[B, 'full', 10, 1, [['r', 10, 2.5]]]], 2, newobj=False)],
+           [s1.seg([base, [B, 'full', 0x20, 2]], 1, big=True), s1.seg([["/'g'", 'nodata', 0, 0, [['gp', 3, 7]]], [A, 'same', 3, 0]], 1)]]
+    if tier == 'thorough':
+        fam += c04.shape_family('quick', 0)[::9]
+    return fam
+
+
 def tasks(tier, seed):
     ts = []
     for i, sh in enumerate(family(tier)):
         ts.append(dict(kind='enc', shape=sh, sid=i))
+    for i, sh in enumerate(cut_family(tier)):
+        ts.append(dict(kind='cut', shape=sh, sid=i))
     for i in range(4 if tier == 'quick' else 12):
         ts.append(dict(kind='writer', prog=i))
     return ts
@@ -240,7 +252,83 @@ def _check_writer(i, sc, fail, note=None):
         note('writer-index')
 
 
+def _summary(tf):
+    out = [('/', sorted((k, s1.prop_canon_got(v)) for k, v in tf.properties.items()))]
+    for g in tf.groups():
+        out.append((g.name, sorted((k, s1.prop_canon_got(v)) for k, v in g.properties.items())))
+        for c in g.channels():
+            tc = None if c.data_type is None else c.data_type.enum_value
+            vals = s1.got_canon(c[:], tc) if tc is not None else []
+            out.append((c.path, len(c), tc, sorted((k, s1.prop_canon_got(v)) for k, v in c.properties.items()), [s1.show(x) for x in vals]))
+    return out
+
+
+def _run_cut(task):
+    """The DATA file is cut at a symbolic offset while a complete matching index sits beside it (virtual file system of C20):
+    reading with the index must give exactly what reading the same cut file without index gives."""
+    import builtins
+    from nptdms import TdmsFile
+    from ..stream import Builder, SymStream
+    from .. import dispatch
+    from .c20 import Ledger
+    enc = s1.build(task['shape'])
+    P = '/vfs/cut.tdms'
+
+    def fn(ctx):
+        cut = ctx.int('cut', 4, len(enc.data))
+        res = {}
+        for conf in ('plain', 'indexed'):
+            for api in ('read', 'open'):
+                led = Ledger()
+
+                def mk_data():
+                    b = Builder()
+                    b.raw(enc.data)
+                    return SymStream(b.regions, size=cut)
+
+                def mk_index():
+                    b = Builder()
+                    b.raw(enc.index)
+                    return SymStream(b.regions)
+                led.vfs[P] = mk_data
+                if conf == 'indexed':
+                    led.vfs[P + '_index'] = mk_index
+                dispatch.OVERRIDES[builtins.open] = led.open
+                dispatch.OVERRIDES[os.path.isfile] = led.isfile
+                try:
+                    try:
+                        tf = getattr(TdmsFile, api)(P)
+                    except PathAbort:
+                        raise
+                    except Exception as e:
+                        res[(conf, api)] = 'raised %s' % type(e).__name__
+                        continue
+                    try:
+                        res[(conf, api)] = _summary(tf)
+                    except PathAbort:
+                        raise
+                    except Exception as e:
+                        res[(conf, api)] = 'read raised %s' % type(e).__name__
+                    finally:
+                        tf.close()
+                finally:
+                    dispatch.OVERRIDES.pop(builtins.open, None)
+                    dispatch.OVERRIDES.pop(os.path.isfile, None)
+        ctx.obligations += 1
+        for api in ('read', 'open'):
+            if res[('plain', api)] != res[('indexed', api)]:
+                ctx.fail('cut-data-file-differs-with-index', api=api, plain=str(res[('plain', api)])[:300], indexed=str(res[('indexed', api)])[:300])
+        ctx.discharged += 1
+        ctx.note('cut-data-file-with-full-index')
+
+    st = explore(fn, max_paths=5000, time_budget=900)
+    st.pop('wall_s', None)
+    return st
+
+
 def run_task(task):
+    if task['kind'] == 'cut':
+        return _run_cut(task)
     if task['kind'] == 'writer':
         def fnw(ctx):
             with Scratch() as sc:
@@ -295,6 +383,30 @@ def replay(art):
     def fail(what, **kw):
         out.append(dict(sig=signature(dict(task=task, what=what, conf=kw.get('conf', ''), exc=kw.get('exc'))), **kw))
         raise Stop()
+    if task['kind'] == 'cut':
+        from nptdms import TdmsFile
+        enc = s1.build(task['shape'])
+        cut = inp.get('cut', len(enc.data))
+        try:
+            with Scratch() as sc:
+                plain = sc.write('p.tdms', enc.data[:cut])
+                indexed = sc.write('i.tdms', enc.data[:cut], enc.index)
+                for api in ('read', 'open'):
+                    r = []
+                    for p in (plain, indexed):
+                        try:
+                            tf = getattr(TdmsFile, api)(p)
+                            try:
+                                r.append(_summary(tf))
+                            finally:
+                                tf.close()
+                        except Exception as e:
+                            r.append('raised %s' % type(e).__name__)
+                    if r[0] != r[1]:
+                        fail('cut-data-file-differs-with-index', conf='', api=api, cut=cut, plain=str(r[0])[:300], indexed=str(r[1])[:300])
+        except Stop:
+            return out[0]
+        return None
     try:
         with Scratch() as sc:
             if task['kind'] == 'writer':
